@@ -161,7 +161,10 @@ def gen_block(ds, d: int, cls: str, cplx: bool, tag: str, allow_zero: bool = Fal
     return arr
 
 
-def gen_list(ds, max_deg: int, cls: str, tag: str, min_deg: int = 0):
+def gen_list(ds, max_deg: int, cls: str, tag: str, min_deg: int = 0, extra: int = 0):
+    """A polynomial as a list of homogeneous blocks; `extra` blocks beyond max_deg model an operand that is longer than
+    the truncation degree of the operation it is passed to."""
+    max_deg = max_deg + extra
     P = OPS._polynomial_zero_list(max_deg, PSI)
     nonempty = False
     for d in range(min_deg, max_deg + 1):
@@ -284,9 +287,13 @@ class Case:
 
     def _lists(self, two=True, maxdegs=(2, 1, 3, 4)):
         self.max_deg = self.ds.pick(list(maxdegs), "max_deg", [1.0 + 3.0 * self.heavy * (m >= 3) for m in maxdegs])
-        self.P = gen_list(self.ds, self.max_deg, self.cls, "P")
-        self.Q = gen_list(self.ds, self.max_deg, self.cls, "Q") if two else None
-        self.desc.update(max_deg=self.max_deg)
+        # operands may carry blocks above the truncation degree (multiply / poisson_bracket / power / add_inplace accept that)
+        ex = self.ds.pick([0, 1, 2], "operand_blocks_beyond_max_deg", (0.6, 0.25, 0.15)) if self.op in ("multiply", "poisson_bracket", "power", "add_inplace") else 0
+        if self.max_deg + ex > 5:
+            ex = max(0, 5 - self.max_deg)
+        self.P = gen_list(self.ds, self.max_deg, self.cls, "P", extra=ex)
+        self.Q = gen_list(self.ds, self.max_deg, self.cls, "Q", extra=ex) if two else None
+        self.desc.update(max_deg=self.max_deg, operand_blocks=self.max_deg + ex + 1)
 
     def _gen_multiply(self):
         self._lists()
@@ -524,9 +531,10 @@ class Case:
             cmp_list(res, pm.integrate(P, self.var), md + 1, False, what, vprefix, self.fscale())
         elif op == "add_inplace":
             Q = list_to_poly(self.Q)
-            lim = md if self.lim == -1 else self.lim
+            top = len(self.P) - 1
+            lim = top if self.lim == -1 else self.lim
             Qt = pm.truncate(Q, lim)
-            cmp_list(got, pm.add(P, Qt, Fraction(self.scale)), md, ex, what, vprefix, self.fscale())
+            cmp_list(got, pm.add(P, Qt, Fraction(self.scale)), top, ex, what, vprefix, self.fscale())
         elif op in ("substitute_linear", "substitute_affine"):
             C = [[complex(self.C[i, j]) for j in range(6)] for i in range(6)]
             sh = None if self.shifts is None else [complex(s) for s in self.shifts]
